@@ -150,6 +150,8 @@ func annVal(t string) interface{} {
 		return obj{"example.com/" + strings.Repeat("a", 63): "v"}
 	case "two":
 		return obj{"a": "1", "b.c/d": "2"}
+	case "multiline":
+		return obj{"k": "line1\nline2 \u00e9\u2603\n"}
 	case "emptykey":
 		return obj{"": "v"}
 	case "n64":
@@ -171,7 +173,7 @@ func annVal(t string) interface{} {
 }
 
 func envTokVal(t string) interface{} {
-	m := map[string]interface{}{"ok": "A=b", "emptyval": "A=", "twoeq": "A=b=c", "noeq": "A", "noname": "=b", "empty": "", "null": nil, "number": 5}
+	m := map[string]interface{}{"ok": "A=b", "emptyval": "A=", "twoeq": "A=b=c", "multiline": "CERT=line1\nline2", "unicode": "\u00c4=\u00e9\u2603", "spaces": "A B= c ", "noeq": "A", "noname": "=b", "empty": "", "null": nil, "number": 5}
 	return m[t]
 }
 
@@ -226,6 +228,8 @@ func mountVal(t string) interface{} {
 		return obj{"hostPath": "/h", "containerPath": "/c", "options": []interface{}{"ro", "nosuid"}}
 	case "typed":
 		return obj{"hostPath": "/h", "containerPath": "/c", "type": "bind"}
+	case "richopts":
+		return obj{"hostPath": "/h h", "containerPath": "/c", "options": []interface{}{"mode=755,x", "a b", "two\nlines"}}
 	case "null":
 		return nil
 	case "nohost":
@@ -250,6 +254,8 @@ func hookVal(t string) interface{} {
 		return obj{"hookName": t, "path": "/bin/h"}
 	case "full":
 		return obj{"hookName": "prestart", "path": "/bin/h", "args": []interface{}{"h", "-x"}, "env": []interface{}{"A=b"}, "timeout": 5}
+	case "rich":
+		return obj{"hookName": "createRuntime", "path": "/bin/h", "args": []interface{}{"h", "two\nlines", "\u00e9"}, "env": []interface{}{"A=b\nc", "B= \u2603"}}
 	case "null":
 		return nil
 	case "badstage":
